@@ -2,7 +2,7 @@
 
 Theorems (lean/CffiVerif/Props/C24.lean): utf8_roundtrip, utf8Encode_injective,
 readText_of_valid, cli_bytes_eq_api_bytes(_text), cli_exec_python_bytes_eq_api_bytes,
-stdout_same_bytes_partial, stdout_has_banner, stdout_differs_from_file,
+stdout_same_bytes,
 invalid_utf8_is_an_error, cr_in_prelude_changes_output over the model of the
 text-I/O layers of the command line (lean/CffiVerif/Model/GenSrcIO.lean); the
 code generator is an uninterpreted parameter (the same function on both sides).
@@ -14,15 +14,15 @@ random cdef / prelude / module-name inputs with non-ASCII text:
   * property oracle (no model involved): the bytes at the destination equal the
     bytes `FFI.emit_c_code(path)` writes in-process for the same texts;
   * model: `readText` against Python's own text-mode read of the same files,
-    `deliver` (newline translation, banner, UTF-8 encoding) against the bytes the
+    `deliver` (newline translation, UTF-8 encoding) against the bytes the
     command line really wrote, the UTF-8 codec model against Python's codec on
     random (also malformed) byte strings and (also surrogate-carrying) strings.
 """
 import io
 import os
-import re
 import subprocess
 import sys
+import warnings
 
 import common
 from common import InfraError
@@ -32,8 +32,8 @@ MANIFEST = {
             "name and line separator, read-sources/exec-python writing to a file produce exactly the bytes "
             "emit_c_code(path) produces when the input files are valid UTF-8 without carriage returns (necessary: "
             "text-mode reading translates \\r, known finding); the strict UTF-8 decoder inverts the encoder on every "
-            "surrogate-free string; with OUTPUT '-' stdout receives the same bytes only if nothing else is printed, "
-            "and in fact receives the generator's 'generating ...' line first (known finding).  The model is tied to "
+            "surrogate-free string; with OUTPUT '-' stdout receives exactly the bytes a file receives (POSIX line "
+            "separator).  The model is tied to "
             "the code by running the real command line (both invocations, both subcommands, file and stdout) and "
             "comparing bytes with FFI.emit_c_code run in-process, and by running Python's text layer and codec "
             "against the model.",
@@ -60,25 +60,13 @@ ASSUMPTIONS = ["locale encoding of the process is UTF-8 (CPython >= 3.7 in the C
 CLASSES = {
     # an input file read in text mode by the command line contains a carriage return
     "C24/carriage-return-in-input": lambda case: bool(case.get("cr")),
-    # OUTPUT '-' and stdout is the expected source preceded by the line print("generating %s") emits
-    "C24/stdout-generating-line": lambda case: case.get("out") == "-" and bool(case.get("only_banner_differs")),
 }
 
-BANNER = re.compile(rb"\Agenerating <_io\.StringIO object at 0x[0-9a-fA-F]+>\n")
 NONASCII = ["é", "ß", "€", "→", "\U0001d11e", "\U0001f600", " ", " ", "\x85", "\x0c", "\x1c"]
 SUBS = ["read-sources", "exec-python", "exec-python-callable"]
 INVS = ["script", "module"]
 OUTS = ["file", "-"]
 COMBOS = [(s, i, o) for s in SUBS for i in INVS for o in OUTS]
-
-
-def _fail(ctx, case, detail):
-    for cls, pred in CLASSES.items():
-        if pred(case):
-            ctx.known_hits.setdefault(cls, {"case": case, "detail": detail})
-            ctx.count("known:" + cls)
-            return "known"
-    return ctx.fail(case, detail)
 
 
 def _quiet(fn):
@@ -284,33 +272,24 @@ def evaluate(ctx, case, d, lines, expect, model=True):
     if case["cr"]:
         ctx.count("input-with-CR")
     dest = out if case["out"] == "-" else fb
-    banner = b""
     # ---- the property itself: destination bytes == emit_c_code bytes, exit status 0
     if api[0] == "ok":
         if rc != 0:
-            _fail(ctx, dict(case, only_banner_differs=False),
-                  "emit_c_code succeeds in-process but the command line exits %d: %s" % (rc, err[-300:]))
+            ctx.fail(case, "emit_c_code succeeds in-process but the command line exits %d: %s" % (rc, err[-300:]))
         elif dest is None:
-            _fail(ctx, dict(case, only_banner_differs=False), "exit status 0 but no output file")
+            ctx.fail(case, "exit status 0 but no output file")
         elif dest != api[1]:
-            only_banner = False
-            if case["out"] == "-":
-                m = BANNER.match(dest)
-                if m and dest[m.end():] == api[1]:
-                    only_banner = True
             pos = next((i for i, (a, b) in enumerate(zip(dest, api[1])) if a != b), min(len(dest), len(api[1])))
-            _fail(ctx, dict(case, only_banner_differs=only_banner),
-                  "command line wrote %d bytes, emit_c_code %d bytes; first difference at offset %d (%r vs %r)"
-                  % (len(dest), len(api[1]), pos, dest[pos:pos + 20], api[1][pos:pos + 20]))
-        if case["out"] == "file" and rc == 0 and out and not BANNER.fullmatch(out):
-            # nothing but the generator's progress line may appear on stdout when writing to a file: not part
-            # of the property, only recorded
-            ctx.count("file-mode-stdout-other")
+            ctx.fail(case, "command line wrote %d bytes to %s, emit_c_code %d bytes; first difference at offset %d "
+                           "(%r vs %r)" % (len(dest), "stdout" if case["out"] == "-" else "the file", len(api[1]),
+                                           pos, dest[pos:pos + 30], api[1][pos:pos + 30]))
+        if case["out"] == "file" and rc == 0 and out:
+            ctx.count("file-mode-stdout-not-empty")      # not part of the property, only recorded
     else:
         exc = last_exc(err)
         if rc == 0 or exc != api[1]:
-            _fail(ctx, dict(case, only_banner_differs=False),
-                  "in-process API raises %s, the command line %s" % (api[1], "exits 0" if rc == 0 else "fails with " + exc))
+            ctx.fail(case, "in-process API raises %s, the command line %s"
+                     % (api[1], "exits 0" if rc == 0 else "fails with " + exc))
     if not model:
         return
     # ---- the model: text-mode reads, then deliver(generator(texts))
@@ -330,12 +309,8 @@ def evaluate(ctx, case, d, lines, expect, model=True):
             ctx.disagree(case, "exit 0", "generator raises %s on the texts the model says were read" % type(e).__name__,
                          "read-sources pipeline")
             return
-        if case["out"] == "-":
-            m = BANNER.match(dest)
-            banner = m.group(0) if m else b""
         if sum(1 for l in lines if l.startswith("deliver ")) < ctx.n(24, 72):    # ~100 kB per line
-            lines.append("deliver %s 10 %s %s" % ("stdout" if case["out"] == "-" else "file",
-                                                  cps(banner.decode("ascii")), cps(text)))
+            lines.append("deliver %s 10 %s" % ("stdout" if case["out"] == "-" else "file", cps(text)))
             expect.append((case, "ok " + hx(dest), "bytes at the destination"))
 
 
@@ -354,7 +329,7 @@ def invalid_utf8_cases(ctx, n, lines, expect):
         ctx.case(("invalid", which, bad))
         ctx.count("invalid-utf8-input")
         impl = "err UnicodeDecodeError" if (rc != 0 and last_exc(err) == "UnicodeDecodeError") else "exit %d %s" % (rc, last_exc(err))
-        lines.append("cli %s - 109 %s %s" % ("stdout" if case["out"] == "-" else "file", hx(files["in.cdef"]), hx(files["in.c"])))
+        lines.append("cli %s 109 %s %s" % ("stdout" if case["out"] == "-" else "file", hx(files["in.cdef"]), hx(files["in.c"])))
         expect.append((case, impl, "invalid UTF-8 input"))
         if rc == 0:
             ctx.fail(case, "an input file that is not UTF-8 was accepted (exit 0)")
@@ -413,6 +388,7 @@ def run_cases(ctx, ncases, model=True):
 
 def correspond(ctx):
     import time
+    warnings.simplefilter("ignore")      # cdef() warns about globals without 'extern'; irrelevant here
     t0 = time.time()
     lines, expect = run_cases(ctx, ctx.n(24, 240))
     invalid_utf8_cases(ctx, ctx.n(2, 12), lines, expect)
@@ -438,6 +414,7 @@ def _witness_case(w):
 
 
 def check_witness(ctx, finding):
+    warnings.simplefilter("ignore")
     case = _witness_case(finding["witness"])
     d = os.path.join(ctx.scratch, "c24_witness_%d" % len(os.listdir(ctx.scratch)))
     files = {"in.cdef": case["cdef"].encode("utf-8"), "in.c": case["prelude"].encode("utf-8")}
